@@ -283,6 +283,7 @@ type hist struct {
 	dist    hx.Counter
 	signers bool
 	cur     config // the settings in force (changed by setProp)
+	upg         *upgGhost         // the open upgrade proposal (ghost record)
 	rotUsed     map[int]bool      // addresses that took part in a rotation (a target must have no rotation history)
 	rrHolder    map[string]string // validator address -> account holding its recovery tokens
 	planPending bool // an upgrade plan has paused its non-approving voters; its second BeginBlock is due
@@ -553,25 +554,44 @@ func (x *hist) proposal(kind string, v int) {
 }
 
 // upgradePause: a software-upgrade plan whose time has come and whose non-approving voters are vs
-func (x *hist) upgradePause(vs []int64, r *hx.Rng) {
+// upgGhost: the harness' own record of an upgrade proposal: who (as a PERSON: the id follows address
+// rotations) holds the vote permission and did not vote yes.  The expectation handed to the model and the
+// checkers comes from this record, never from the gov store.
+type upgGhost struct {
+	pid     uint64
+	content *upgradetypes.ProposalSoftwareUpgrade
+	nonAppr map[int]bool
+	upTime  int64 // seconds
+}
+
+func (x *hist) renamePerson(v, v2 int) {
+	if x.upg != nil && x.upg.nonAppr[v] {
+		delete(x.upg.nonAppr, v)
+		x.upg.nonAppr[v2] = true
+	}
+}
+
+// upgradeVote: a software-upgrade proposal with upgrade time upTime (seconds) is created; the persons in vs hold
+// the vote permission and vote no / abstain / veto / not at all; every other validator either votes yes
+// or holds no vote permission
+func (x *hist) upgradeVote(vs []int64, upTime int64, r *hx.Rng) {
 	if x.dead {
-		return // the chain has halted (or the sets already differ): the history ends here
+		return
 	}
 	w := x.w
-	a := appOf(w)
-	gk := a.CustomGovKeeper
+	gk := appOf(w).CustomGovKeeper
 	ctx := x.blockCtx()
-	content := upgradetypes.NewSoftwareUpgradeProposal("up", nil, x.t/1e9-1, "old", "new", "", 0, "", true, false, true)
+	content := upgradetypes.NewSoftwareUpgradeProposal("up", nil, upTime, "old", "new", "", 0, "", true, false, true)
 	pid, err := gk.CreateAndSaveProposalWithContent(ctx, "upgrade", "upgrade", content)
 	if err != nil {
 		panic(err)
 	}
 	in := map[int64]bool{}
+	gh := &upgGhost{pid: pid, content: content, nonAppr: map[int]bool{}, upTime: upTime}
 	for _, v := range vs {
 		in[v] = true
+		gh.nonAppr[int(v)] = true
 	}
-	// every known validator address: non-approving ones hold the vote permission and did not vote
-	// yes; approving ones either voted yes or hold no vote permission at all
 	for id, va := range w.valAddrs {
 		addr := sdk.AccAddress(va)
 		actor, found := gk.GetNetworkActorByAddress(ctx, addr)
@@ -579,9 +599,8 @@ func (x *hist) upgradePause(vs []int64, r *hx.Rng) {
 			actor = govtypes.NewDefaultActor(addr)
 		}
 		has := actor.Permissions.IsWhitelisted(govtypes.PermVoteSoftwareUpgradeProposal)
-		// only validators, pending claimers and the named non-approving voters become network actors here: an
-		// address that is a network actor must not be used as a rotation target (the rotation would overwrite
-		// its actor record and orphan its permission index entries -- gov/recovery matter, outside C05/C15)
+		// only validators, pending claimers and the named non-approving voters become network actors here
+		// (a network actor cannot be a rotation target)
 		_, isVal := x.prev.Vals[id]
 		isPend := false
 		for _, pe := range x.prev.Pend {
@@ -612,39 +631,96 @@ func (x *hist) upgradePause(vs []int64, r *hx.Rng) {
 			gk.SaveVote(ctx, govtypes.NewVote(pid, addr, govtypes.OptionYes, sdk.ZeroDec()))
 		}
 	}
-	// the order in which the real code will visit the non-approving voters (votes in store order, then
-	// the remaining holders of the vote permission): it matters only when consensus keys are shared
+	x.upg = gh
+}
+
+// upgradeSchedule: the proposal has passed: its result is stored and the REAL software-upgrade proposal
+// handler schedules the plan (upgrade time still in the future)
+func (x *hist) upgradeSchedule() {
+	if x.dead || x.upg == nil {
+		return
+	}
+	gk := appOf(x.w).CustomGovKeeper
+	ctx := x.blockCtx()
+	prop, found := gk.GetProposal(ctx, x.upg.pid)
+	if !found {
+		panic("upgrade proposal lost")
+	}
+	prop.Result = govtypes.Passed
+	gk.SaveProposal(ctx, prop)
+	if err := gk.GetProposalRouter().ApplyProposal(ctx, x.upg.pid, x.upg.content, sdk.ZeroDec()); err != nil {
+		panic("software upgrade proposal handler: " + err.Error())
+	}
+}
+
+// upgradeExecute: first BeginBlock at or after the upgrade time: the real upgrade BeginBlocker pauses the
+// non-approving voters.  Expected set = the ghost's (ordered as the code visits them, which matters only
+// when consensus keys are shared).
+func (x *hist) upgradeExecute() {
+	if x.dead || x.upg == nil {
+		return
+	}
+	w := x.w
+	a := appOf(w)
+	gk := a.CustomGovKeeper
+	ctx := x.blockCtx()
 	var order []int64
-	processed := map[string]bool{}
-	for _, vote := range gk.GetProposalVotes(ctx, pid) {
-		processed[vote.Voter.String()] = true
-		if id, ok := w.valID[string(sdk.ValAddress(vote.Voter))]; ok && vote.Option != govtypes.OptionYes {
-			order = append(order, int64(id))
+	seen := map[int64]bool{}
+	add := func(id int64) {
+		if x.upg.nonAppr[int(id)] && !seen[id] {
+			order = append(order, id)
+			seen[id] = true
 		}
 	}
-	for _, actor := range gk.GetNetworkActorsByAbsoluteWhitelistPermission(ctx, govtypes.PermVoteSoftwareUpgradeProposal) {
-		if !processed[actor.Address.String()] {
-			if id, ok := w.valID[string(sdk.ValAddress(actor.Address))]; ok {
-				order = append(order, int64(id))
+	hx.Try(func() {
+		for _, vote := range gk.GetProposalVotes(ctx, x.upg.pid) {
+			if id, ok := w.valID[string(sdk.ValAddress(vote.Voter))]; ok {
+				add(int64(id))
 			}
 		}
-		processed[actor.Address.String()] = true
+		for _, actor := range gk.GetNetworkActorsByAbsoluteWhitelistPermission(ctx, govtypes.PermVoteSoftwareUpgradeProposal) {
+			if id, ok := w.valID[string(sdk.ValAddress(actor.Address))]; ok {
+				add(int64(id))
+			}
+		}
+	})
+	var rest []int
+	for id := range x.upg.nonAppr {
+		if !seen[int64(id)] {
+			rest = append(rest, id)
+		}
 	}
-	vs = order
-	plan := upgradetypes.Plan{Name: "up", UpgradeTime: x.t/1e9 - 1, InstateUpgrade: true, SkipHandler: true, ProposalID: pid}
-	if err := a.UpgradeKeeper.SaveNextPlan(ctx.WithBlockTime(time.Unix(0, x.t-10e9).UTC()), plan); err != nil {
-		panic(err)
+	sort.Ints(rest)
+	for _, id := range rest {
+		order = append(order, int64(id))
 	}
 	res := "ROk"
-	p := hx.Try(func() { upgrade.BeginBlocker(a.UpgradeKeeper, ctx, abci.RequestBeginBlock{}) })
+	bc, bwrite := ctx.CacheContext()
+	p := hx.Try(func() { upgrade.BeginBlocker(a.UpgradeKeeper, bc, abci.RequestBeginBlock{}) })
 	if p != "" {
 		res = "RPanic"
 		x.dead = true
-	}
-	if p == "" {
+	} else {
+		bwrite()
 		x.planPending = true // the next BeginBlock carries on with the plan (second phase)
 	}
-	x.record("OUpPause "+zs(vs), jop{Op: "upgrade-pause", Vs: vs, Err: p}, res, "")
+	x.upg = nil
+	x.record("OUpPause "+zs(order), jop{Op: "upgrade-pause", Vs: order, Err: p}, res, "")
+}
+
+// upgradePause: the whole process in one block (the plan is already due when it is stored)
+func (x *hist) upgradePause(vs []int64, r *hx.Rng) {
+	if x.dead {
+		return // the chain has halted (or the sets already differ): the history ends here
+	}
+	a := appOf(x.w)
+	ctx := x.blockCtx()
+	x.upgradeVote(vs, x.t/1e9-1, r)
+	plan := upgradetypes.Plan{Name: "up", UpgradeTime: x.t/1e9 - 1, InstateUpgrade: true, SkipHandler: true, ProposalID: x.upg.pid}
+	if err := a.UpgradeKeeper.SaveNextPlan(ctx.WithBlockTime(time.Unix(0, x.t-10e9).UTC()), plan); err != nil {
+		panic(err)
+	}
+	x.upgradeExecute()
 }
 
 func (x *hist) consKeys() []int64 {
@@ -844,6 +920,18 @@ func main() {
 		finish(x, fmt.Sprintf("bnd:%s:%+dns", bc.kind, bc.d))
 	}
 	dist["boundary-stream:run"] = len(bndCases())
+	ucs := upgCases()
+	nUpg := 0
+	for i, uc := range ucs {
+		if !(os.Getenv("VERIF_TIER") == "thorough" || os.Getenv("VERIF_SYS") == "all") && uc.start == "PAUSED" && i%4 != 0 {
+			continue
+		}
+		x := newHist(0)
+		runUpg(x, genID, uc, r)
+		finish(x, fmt.Sprintf("upg:%s:a-votes-%s:%s-at-%d", uc.start, uc.vote, uc.x, uc.pos))
+		nUpg++
+	}
+	dist["upgrade-process-stream:run"] = nUpg
 	nLast := 0
 	for _, lc := range lastCases() {
 		x := newHist(0)
@@ -940,6 +1028,9 @@ func kindClass(k string) string {
 	if strings.HasPrefix(k, "bnd:") {
 		return "boundary-stream"
 	}
+	if strings.HasPrefix(k, "upg:") {
+		return "upgrade-process-stream"
+	}
 	if strings.HasPrefix(k, "last:") {
 		return "last-validators-stream"
 	}
@@ -950,5 +1041,39 @@ func init() {
 	// the real code prints to stdout (e.g. "error applying proposal"); keep the harness output clean
 	if f, err := os.OpenFile(os.DevNull, os.O_WRONLY, 0); err == nil {
 		os.Stdout = f
+	}
+}
+
+// pinVote: make person id vote exactly as named on the open upgrade proposal
+func pinVote(x *hist, id int, how string) {
+	if x.dead || x.upg == nil {
+		return
+	}
+	gk := appOf(x.w).CustomGovKeeper
+	ctx := x.blockCtx()
+	addr := sdk.AccAddress(x.w.valAddrs[id])
+	actor, found := gk.GetNetworkActorByAddress(ctx, addr)
+	if !found {
+		actor = govtypes.NewDefaultActor(addr)
+	}
+	has := actor.Permissions.IsWhitelisted(govtypes.PermVoteSoftwareUpgradeProposal)
+	if v, ok := gk.GetVote(ctx, x.upg.pid, addr); ok {
+		gk.DeleteVote(ctx, v)
+	}
+	wantPerm := how != "no-perm"
+	if wantPerm && !has {
+		if err := gk.AddWhitelistPermission(ctx, actor, govtypes.PermVoteSoftwareUpgradeProposal); err != nil {
+			panic(err)
+		}
+	} else if !wantPerm && has {
+		if err := gk.RemoveWhitelistedPermission(ctx, actor, govtypes.PermVoteSoftwareUpgradeProposal); err != nil {
+			panic(err)
+		}
+	}
+	switch how {
+	case "yes":
+		gk.SaveVote(ctx, govtypes.NewVote(x.upg.pid, addr, govtypes.OptionYes, sdk.ZeroDec()))
+	case "no":
+		gk.SaveVote(ctx, govtypes.NewVote(x.upg.pid, addr, govtypes.OptionNo, sdk.ZeroDec()))
 	}
 }
